@@ -716,7 +716,7 @@ def case_strategy(draw, ctx=None):
 
 
 def shard(ctx):
-    drive(ctx, case_strategy(ctx), check_case, ctx.share(600, 30000))
+    drive(ctx, case_strategy(ctx), check_case, ctx.share(1200, 30000))
 
 
 def replay(ctx, case):
